@@ -18,16 +18,13 @@ EXTENDS Graph, Json, IOUtils
 
 Cases == JsonDeserialize(IOEnv.CASES)
 
-VARIABLES tid, i, issued, kinds, bad
-vars == <<tid, i, issued, kinds, bad>>
+VARIABLES tid, i, issued, kinds, bad, H
 
 VarsOf(b) == (IF "var" \in DOMAIN b THEN {b.var} ELSE {}) \cup (IF "asg" \in DOMAIN b THEN {b.asg[j][1] : j \in 1..Len(b.asg)} ELSE {})
-KindsOf(H) == [n \in DOMAIN H |-> H[n].k]
-Present(H) == DOMAIN H \cup UNION {VarsOf(H[n]) : n \in DOMAIN H}
+KindsOf(h) == [n \in DOMAIN h |-> h[n].k]
+Present(h) == DOMAIN h \cup UNION {VarsOf(h[n]) : n \in DOMAIN h}
 
-\* the state variable `kinds` carries name -> kind for blocks; variables in use are tracked in `vars_in_use`-free form:
-\* they are recomputed from the hierarchy H, which is rebuilt from deltas
-VARIABLE H
+\* H is rebuilt from the recorded deltas; `kinds` (name -> kind) is what the overwrite clause compares against
 allvars == <<tid, i, issued, kinds, bad, H>>
 
 Ev == Cases[tid].events[i + 1]
@@ -35,7 +32,7 @@ ApplyDelta(h, ev) == [n \in (DOMAIN h \ SeqSet(ev.del)) \cup DOMAIN ev.put |-> I
 
 Init == /\ tid \in 1..Len(Cases)
         /\ i = 0
-        /\ issued = {}
+        /\ issued = {Cases[tid].root}      \* the root region's name was handed out when the graph object was built
         /\ H = Cases[tid].init
         /\ kinds = KindsOf(Cases[tid].init)
         /\ bad = {}
@@ -51,7 +48,7 @@ Step ==
         /\ IF ev.op = "name"
            THEN /\ issued' = issued \cup {ev.args.name}
                 /\ bad' = (IF ev.args.name \in issued THEN {"Fresh"} ELSE {})
-                          \cup (IF ev.args.name \in Present(H) \/ ev.args.name = Cases[tid].root THEN {"NoClobber"} ELSE {})
+                          \cup (IF ev.args.name \in Present(H) THEN {"NoClobber"} ELSE {})
            ELSE IF ev.op = "reload"
            THEN /\ issued' = {}
                 /\ bad' = (IF ev.exc # "" THEN {"ReloadRaises"} ELSE {})
